@@ -11,6 +11,7 @@ import copy
 _REG = []     # (container, import-time shallow copy)
 _LRU = []     # functools.lru_cache wrappers and anything else with cache_clear()
 _SEEN = set()
+_MISSING = object()
 KINDS = (dict, set, list, collections.defaultdict, collections.OrderedDict, collections.deque)
 
 
@@ -42,7 +43,17 @@ def restore():
     for c, snap in _REG:
         try:
             if len(c) == len(snap):
-                continue
+                # same size: still dirty if a small mapping/list holds other objects than at import (identity test: no comparisons of values)
+                if len(snap) > 256:
+                    continue
+                if isinstance(c, dict):
+                    if all(c.get(k, _MISSING) is v for k, v in snap.items()):
+                        continue
+                elif isinstance(c, (list, collections.deque)):
+                    if all(a is b for a, b in zip(c, snap)):
+                        continue
+                else:
+                    continue
             if isinstance(c, (list, collections.deque)):
                 c.clear()
                 c.extend(snap)
